@@ -133,8 +133,10 @@ func (p *Processor) handleCleanup(ctx context.Context) {
 					}
 
 					// Send notification for individual message when quorum has failed or
-					// more than one node is missing.
-					if !quorum || len(missing) > 1 {
+					// more than one node is missing. A guardian set that lists a key more than once has
+					// fewer distinct signers than keys without anybody missing, and the notifier panics
+					// when it is given no names.
+					if len(missing) > 0 && (!quorum || len(missing) > 1) {
 						go func(v *vaa.VAA, hasSigs, wantSigs int, quorum bool, missing []string) {
 							if err := p.notifier.MissingSignaturesOnTransaction(v, hasSigs, wantSigs, quorum, missing); err != nil {
 								p.logger.Error("failed to send notification", zap.Error(err))
